@@ -27,7 +27,7 @@ RULE = (
     "other compiles; non-trivial = pattern with >= 1 field spec; distinct = distinct (pattern text, node fingerprint)"
 )
 ASSUMPTIONS = ["sequence patterns applied to str-valued fields and field names that are properties/methods are not generated (don't-care)"]
-MUST_SEE = ["empty_sequence_spec", "pattern_after_class_redefinition", "empty_rule_selection", "regex_inner_whitespace", "rules_given_as_iter", "rules_given_as_gen", "regex_on_hash_equal_values", 
+MUST_SEE = ["nodes_with_non_field_attributes", "empty_sequence_spec", "pattern_after_class_redefinition", "empty_rule_selection", "regex_inner_whitespace", "rules_given_as_iter", "rules_given_as_gen", "regex_on_hash_equal_values", 
     "tail_vs_too_short", "capture_on_seq_with_tail", "two_any_captures", "var_node_other_origin", "second_alternative_subclass",
     "matches", "mismatches", "reasked", "multi_questions", "regex_middle_only", "tail_capture", "empty_seq_vs_nonempty", "reasked_after_rejected",
 ]
@@ -87,6 +87,8 @@ def run_shard(ctx):
     from pyoak.match.pattern import MultiPatternMatcher, NodeMatcher
     from pyoak.node import ASTNode
 
+    from vlib.universe import EXTRA_ATTRS
+
     U = core_universe()
     P = U.P
     classes = dict(U.cls)
@@ -95,7 +97,10 @@ def run_shard(ctx):
 
     def fields_of(n):
         cn = type(n).__name__
-        return [f.name for f in U.all_fields(cn) if f.name not in ("id", "content_id", "origin")]
+        extra = [a for c in type(n).__mro__ for a in EXTRA_ATTRS.get(c.__name__[len(P):], ())]
+        if extra:
+            ctx.count("nodes_with_non_field_attributes")
+        return [f.name for f in U.all_fields(cn) if f.name not in ("id", "content_id", "origin")] + extra
 
     def class_choices(n):
         return [c.__name__ for c in type(n).__mro__ if c.__name__ in U.specs] + (["ASTNode"] if ctx.rng("x").random() < 0.0 else [])
